@@ -40,6 +40,14 @@ def timing_program(rng, nroots=None, depth=0):
                 out.append({'op': 'sleep', 'd': dur()})
             elif r < 0.5:
                 out.append({'op': 'await_c', 'c': [rng.choice(['ge', 'ge', 'eq', 'lt']), date()]})
+            elif r < 0.56:
+                # a condition object built now (possibly for the current time) and awaited later, inside an until-block
+                # so that a wait that can no longer end does not stop the program
+                j = rng.randint(1, 3)
+                out += [{'op': 'mkc', 'j': j, 'c': [rng.choice(['eq', 'eq', 'ge', 'lt']), rng.choice(['now', 'now', date()])]},
+                        {'op': 'sleep', 'd': rng.choice([0.5, 1, 2])},
+                        {'op': 'open', 'kind': 'until_d', 'd': 1, 'catch': True}, {'op': 'await_c', 'j': j, 'c': ['inst']},
+                        {'op': 'leave'}]
             elif r < 0.6:
                 out.append({'op': 'instant'})
             elif r < 0.8 and lvl < 2:
